@@ -104,6 +104,25 @@ func (m *didMonitor) AfterTx(x *Exec, tx *TxInfo, result string) {
 			x.Flag("C04-replay", "a message that was accepted before was accepted again: "+pm.Kind+" for "+did)
 		}
 		m.acceptedMsg[inner] = true
+		// a proof (signature over content and sequence) is accepted at most once, whatever the did field and the relayer
+		var sigHex string
+		switch msg := pm.Msg.(type) {
+		case *didtypes.MsgCreateDIDRequest:
+			sigHex = fmt.Sprintf("%x", msg.Signature)
+		case *didtypes.MsgUpdateDIDRequest:
+			sigHex = fmt.Sprintf("%x", msg.Signature)
+		case *didtypes.MsgDeactivateDIDRequest:
+			sigHex = fmt.Sprintf("%x", msg.Signature)
+		}
+		if sigHex != "" {
+			// (an update that re-submits the created document at sequence 0 legitimately carries the bytes of the creation
+			// proof — the signed payloads of create and update are the same — so only reuse within one kind counts)
+			pk := "proof:" + pm.Kind + ":" + sigHex
+			if m.acceptedMsg[pk] {
+				x.Flag("C04-replay", "a "+pm.Kind+" proof that was accepted before was accepted again, now for "+did)
+			}
+			m.acceptedMsg[pk] = true
+		}
 		if m.tombstoned[did] {
 			x.Flag("C05-tombstone", pm.Kind+" accepted on a deactivated DID "+did)
 		}
